@@ -2348,6 +2348,17 @@ def summarise_writer_run(seg, sc, k):
     last_open = max([i for i, e in enumerate(seg) if e.get("ev") == "Open"], default=None)
     finished = False
     outcome = "none"
+    ents_desc = []
+    # entries that were CLOSED before the first call that reported an error: every entry-creating call that succeeded before it, except
+    # the most recent one (it may still have been open), plus the entries of the archive opened for append
+    creating = ("StartFile", "StartFileExtra", "StartFileAligned", "AddDir", "AddSymlink", "RawCopy")
+    first_bad = next((i for i, e in enumerate(calls) if e.get("r") in ("err", "panic")), len(calls))
+    last_start = max([i for i, e in enumerate(calls[:first_bad]) if e.get("ev") in ("New", "NewAppend")], default=0)
+    made = [e for e in calls[last_start:first_bad] if e.get("ev") in creating and e.get("r") == "ok"]
+    n0 = 0
+    if calls and calls[last_start].get("ev") == "NewAppend" and isinstance(calls[last_start].get("L"), dict):
+        n0 = len(calls[last_start]["L"].get("cd") or [])
+    nsafe = n0 + max(0, len(made) - 1)
     if last_open is not None and seg[last_open].get("r") == "ok":
         # only if it follows the last Finish/Drop call of the run
         last_fin = max([i for i, e in enumerate(seg) if e.get("ev") in ("Finish", "Drop")], default=-1)
@@ -2360,10 +2371,11 @@ def summarise_writer_run(seg, sc, k):
                              # the stored bytes themselves (by_index_raw): an entry this crate cannot decode has no other content to compare
                              e.get("rraw"), e.get("rawlen"), e.get("rawcrc")])
             outcome = vlib.digest(desc)
+            ents_desc = desc[2:]
             finished = True
     first_err = next((e.get("ev") + ": " + str(e.get("msg")) for e in calls if e.get("r") in ("err", "panic")), "")
     return {"ev": "FRun", "sc": sc, "side": "writer", "k": k, "calls": len(calls), "anyerr": anyerr, "panic": panic, "first_err": first_err,
-            "ops": ops, "faulted": faulted, "outcome": outcome, "finished": finished}
+            "ops": ops, "faulted": faulted, "outcome": outcome, "finished": finished, "_ents": ents_desc, "_nsafe": nsafe, "closed_intact": True}
 
 
 def c11(tier):
@@ -2467,8 +2479,13 @@ def c11(tier):
     for e in vlib.read_ndjson(tfile):
         segs.setdefault(e.get("sc"), []).append(e)
     by_name = {}
+    base_ents = {hdr[0]["sc"]: hdr[1].get("_ents", []) for hdr in fruns}
     for s in faults:
         fr = summarise_writer_run(segs.get(s["sc"], []), s["_name"], s["_k"])
+        # an archive that finish() reports as written still holds, unchanged, every entry that was closed before the failing call
+        if fr["finished"]:
+            n_ = fr["_nsafe"]
+            fr["closed_intact"] = len(fr["_ents"]) >= n_ and fr["_ents"][:n_] == base_ents.get(s["_name"], [])[:n_]
         by_name.setdefault(s["_name"], []).append(fr)
     # ---- reader scenarios: the source fails at operation k (open + read-all; streaming with partial reads)
     rseeds = read_seeds(rnd)
@@ -2530,7 +2547,9 @@ def c11(tier):
     trace = os.path.join(wd, "faults-trace.ndjson")
     for e in allev:            # (TLC's JSON reader has no null)
         for kk in list(e):
-            if e[kk] is None:
+            if kk.startswith("_"):
+                del e[kk]
+            elif e[kk] is None:
                 e[kk] = []
     vlib.write_ndjson(trace, allev)
     res = vlib.validate_segments("Trace_Fault.tla", "Trace_Fault.cfg", trace, wd, tag="faults", max_rejections=8)
